@@ -422,7 +422,7 @@ Proof.
        end.
   all: try (destruct (step_f_counters _ _ _ _ _ H eq_refl) as (-> & -> & -> & ->); rewrite Hb; reflexivity).
   all: simpl in H; case_hyp H; inv_some H; simpl; rewrite ?Hb, ?Nat.add_0_r, ?Nat.sub_0_r; simpl; try reflexivity.
-  all: rewrite ?leb_ltb; destruct (cnt s <? 1), (cnt s =? 1), (fired s); reflexivity.
+  all: destruct (cnt s) as [|[|c]], (fired s); simpl; reflexivity.
 Qed.
 
 Lemma broken_mono_step s e s' : step s e = Some s' -> broken s = true -> broken s' = true.
@@ -460,3 +460,230 @@ Qed.
 
 Theorem rule_is_not_broken n tr s : run (init n) tr = Some s -> follows_rule n tr = negb (broken s).
 Proof. intros H. apply (rule_run tr (init n) s H). reflexivity. Qed.
+
+(* ---- consequences, in the terms of the property ------------------------------------------------------------ *)
+
+Lemma run_app tr1 : forall tr2 s s2, run s (tr1 ++ tr2) = Some s2 ->
+  exists s1, run s tr1 = Some s1 /\ run s1 tr2 = Some s2.
+Proof.
+  induction tr1 as [|e tr1 IH]; simpl; intros tr2 s s2 H.
+  - eauto.
+  - destruct (step s e) as [s'|]; [|discriminate]. apply IH; auto.
+Qed.
+
+(* (1) releases happen at zero, zero is stable, zero means everything added has been done / completed *)
+Lemma rels_at_zero s : Inv s -> broken s = false -> Forall rel_ok (rels s).
+Proof. intros (_ & _ & _ & _ & (R1 & _)) Hb. auto. Qed.
+
+Lemma fired_zero s : Inv s -> broken s = false -> fired s = true -> cnt s = 0.
+Proof.
+  intros (G & _) Hb Hf. unfold Gb in G. rewrite Hb, Hf in G. bsimp. split_and. auto.
+Qed.
+
+Lemma zero_all_done s : Inv s -> broken s = false -> cnt s = 0 ->
+  uu s = 0 /\ forall j r, nth_error (fs s) j = Some r -> holds r = false /\ (ap r <> A0 -> fw r = WR).
+Proof.
+  intros (_ & C & F & _) Hb Hc. specialize (C Hb). split; [lia|].
+  intros j r Hn. assert (Hh : holds r = false) by (eapply sumh_zero; eauto; lia).
+  split; auto. intros Ha. eapply Forall_nth in F; eauto. simpl in F.
+  destruct r as [k w a p v fr h]; simpl in *. subst h.
+  destruct w, a, p; simpl in *; try discriminate; try congruence; auto.
+Qed.
+
+Lemma fired_mono_step s e s' : step s e = Some s' -> fired s = true -> fired s' = true.
+Proof.
+  intros H Hb. destruct e.
+  1-6: simpl in H; try (case_hyp H); inv_some H; simpl; rewrite ?Hb; auto.
+  all: unfold step, ev_w, ev_f in H; cbv beta iota in H.
+  all: match type of H with
+       | context [nth_error (ws ?s) ?w] =>
+           destruct (nth_error (ws s) w) as [r0|] eqn:Hn; [|discriminate];
+           destruct (step_w_counters _ _ _ _ _ H) as (_ & _ & -> & _); auto
+       | context [nth_error (fs ?s) ?j] =>
+           destruct (nth_error (fs s) j) as [r0|] eqn:Hn; [|discriminate]
+       end.
+  all: simpl in H; case_hyp H; inv_some H; simpl; rewrite ?Hb; auto.
+Qed.
+
+Lemma fired_mono tr : forall s s', run s tr = Some s' -> fired s = true -> fired s' = true.
+Proof.
+  induction tr as [|e tr IH]; simpl; intros s s' H Hb.
+  - inv_some H. auto.
+  - destruct (step s e) as [s1|] eqn:E; [|discriminate]. eapply IH; eauto. eapply fired_mono_step; eauto.
+Qed.
+
+(* while the count is non-zero (and the rule has been respected so far) it has never been zero: the documented
+   condition "Add only while the count is non-zero" implies the model's rule for the next Add *)
+Lemma nonzero_not_fired s : Inv s -> broken s = false -> cnt s <> 0 -> fired s = false.
+Proof.
+  intros I Hb Hc. destruct (fired s) eqn:Hf; auto. exfalso. apply Hc. apply fired_zero; auto.
+Qed.
+
+(* (2) every waiter once *)
+Lemma waiter_once s w r : Inv s -> nth_error (ws s) w = Some r ->
+  relc r <= 1 /\ relcount w (rels s) = relc r /\ (relc r = 1 <-> pc r = WDone).
+Proof.
+  intros I Hn. pose proof (inv_wloc _ _ _ I Hn) as Hw. destruct I as (_ & _ & _ & _ & (_ & _ & _ & R4 & _)).
+  rewrite (R4 _ _ Hn). clear R4 Hn.
+  generalize dependent (occ w (lst s)). generalize dependent (icb (incall s) w).
+  generalize dependent (is_all (head s)). intros hA ic o Hw.
+  unfold wloc, wcore in Hw. split_and.
+  destruct (pc r); simpl in *; repeat split; try lia; try discriminate; auto.
+Qed.
+
+Lemma quiescent_all_called s w r : Inv s -> broken s = false -> fired s = true -> quiescent s = true ->
+  nth_error (ws s) w = Some r ->
+  is_all (head s) = true /\
+  (reg r = true -> called r = true /\ (wk r = KTimed -> edec r = true)) /\
+  (pc r = WParked -> called r = true /\ (wk r = KBlock \/ wk r = KTimed)) /\
+  (wk r = KTimed -> pc r = WDone \/ pc r = WTmo -> frees r = 1).
+Proof.
+  intros I Hb Hf Hq Hn. pose proof (inv_wloc _ _ _ I Hn) as Hw. destruct I as (G & _).
+  unfold quiescent in Hq. apply andb_true_iff in Hq. destruct Hq as [Hq Hi].
+  apply andb_true_iff in Hq. destruct Hq as [Hp Ht]. apply Nat.eqb_eq in Hp.
+  assert (Ha : is_all (head s) = true).
+  { unfold Gb in G. rewrite Hb, Hf, Hp in G. destruct (is_all (head s)); auto; bsimp; discriminate. }
+  unfold lst in Hw. destruct (todo s); [|discriminate]. destruct (incall s); [discriminate|].
+  destruct (head s) as [l|]; [discriminate|]. simpl in Hw. clear G Hn Hp Ht Hi Hf Hb.
+  split; [reflexivity|].
+  wfields r. wunfold.
+  repeat split; intros; subst; wcases; bsimp; split_and; subst; try discriminate; auto.
+  all: try (destruct H0; discriminate).
+Qed.
+
+(* after the all-done exchange nobody registers any more, and a waiter that is inside TryAdd leaves it with "false" *)
+Lemma step_w_reg s w r e s' : step_w s w r e = Some s' ->
+  exists r', ws s' = upd w r' (ws s) /\ (reg r' = reg r \/ is_all (head s) = false) /\
+             (is_all (head s) = true -> (pc r = WTry \/ (exists x, pc r = WCas x) \/ (pc r = W0 /\ wk r <> KInline /\ wk r <> KSticky)) ->
+              match e with ETryLd _ _ | ETryCas _ _ => pc r' = WPass | _ => True end).
+Proof.
+  intros H. destruct e; simpl in H; try discriminate.
+  all: case_hyp H; inv_some H; simpl; eexists; split; try reflexivity; simpl; auto.
+  all: try (split; [auto|]; intros Ha Hp; auto).
+  all: try (match goal with E : head ?s0 = Stack _ |- _ => rewrite E in *; simpl in *; try discriminate end).
+  all: try (match goal with E : hv_eqb ?v (top (head ?s0)) = true |- _ =>
+              apply hv_eqb_eq in E; destruct (head s0) as [[|y l]|]; simpl in *; subst; try discriminate; auto end).
+  all: try discriminate.
+Qed.
+
+Lemma no_late_registration s e s' w r' : is_all (head s) = true -> step s e = Some s' ->
+  nth_error (ws s') w = Some r' -> reg r' = true -> exists r, nth_error (ws s) w = Some r /\ reg r = true.
+Proof.
+  intros Ha H Hn Hr. destruct e.
+  1-6: simpl in H; try (case_hyp H); inv_some H; simpl in *; eauto.
+  1: { apply nth_app_new in Hn. destruct Hn as [Hn|[_ ->]]; eauto. destruct k; discriminate. }
+  all: unfold step, ev_w, ev_f in H; cbv beta iota in H.
+  all: match type of H with
+       | context [nth_error (ws ?s) ?w0] =>
+           destruct (nth_error (ws s) w0) as [r0|] eqn:Hn0; [|discriminate];
+           destruct (step_w_reg _ _ _ _ _ H) as (r1 & E & [Hreg|Hreg] & _); [|congruence];
+           rewrite E in Hn;
+           match type of Hn with nth_error (upd ?a _ _) _ = _ =>
+             destruct (Nat.eq_dec a w) as [->|Hne];
+             [erewrite nth_upd_same in Hn; eauto; inv_some Hn; exists r0; split; [auto|congruence]
+             |rewrite nth_upd_other in Hn; eauto] end
+       | context [nth_error (fs ?s) ?j] =>
+           destruct (nth_error (fs s) j) as [r0|] eqn:Hn0; [|discriminate];
+           assert (E : ws s' = ws s) by (simpl in H; case_hyp H; inv_some H; reflexivity);
+           rewrite E in Hn; eauto
+       end.
+Qed.
+
+(* (3) the timed waiter's heap object *)
+Lemma timed_lifetime s w r : Inv s -> nth_error (ws s) w = Some r -> wk r = KTimed ->
+  uaf s = false /\ frees r <= 1 /\ refs r <= 2 /\
+  (reg r = true -> refs r = 2 - b2n (wdec r) - b2n (edec r) /\ frees r = b2n (wdec r && edec r)) /\
+  (reg r = false -> frees r = match pc r with WDone => 1 | _ => 0 end).
+Proof.
+  intros I Hn Hk. pose proof (inv_wloc _ _ _ I Hn) as Hw. split; [apply gb_uaf; apply I|]. clear I Hn.
+  generalize dependent (occ w (lst s)). generalize dependent (icb (incall s) w).
+  generalize dependent (is_all (head s)). intros hA ic o Hw.
+  wfields r. subst. wunfold. destruct rg0; bsimp; split_and; subst.
+  - destruct wd0, ed0; simpl; repeat split; auto; try discriminate.
+  - destruct p0; simpl in *; repeat split; auto; try discriminate; intros; try lia.
+Qed.
+
+(* (4) (5) futures *)
+Lemma future_facts s j r : Inv s -> nth_error (fs s) j = Some r ->
+  frel r <= 1 /\
+  (fk r = FAttach -> frel r = 0 /\ (fw r = WR -> exists x, fval r = Some x /\ rd r = Some x)) /\
+  (fk r = FConsume -> (ap r = AOk \/ ap r = ADone) -> pp r = PDone -> frel r = 1) /\
+  (fw r = WR <-> (pp r = PCb \/ pp r = PCbRel \/ pp r = PDone)).
+Proof.
+  intros (_ & _ & F & _) Hn. eapply Forall_nth in F; eauto. simpl in F. clear Hn.
+  destruct r as [k w a p v fr h]; unfold rd, finv in *; simpl in *.
+  destruct k, w, a, p, v, h; simpl in *; try discriminate; bsimp; split_and; subst; try discriminate.
+  all: repeat split; intros; try lia; try discriminate; eauto.
+  all: try (match goal with H : _ \/ _ |- _ => destruct H as [H|H]; try discriminate end).
+  all: try (match goal with H : _ \/ _ |- _ => destruct H as [H|H]; try discriminate end); auto.
+Qed.
+
+Lemma observations_ok s : Inv s -> Forall ready_ok (readys s) /\ Forall (got_ok (fs s)) (gots s).
+Proof. intros (_ & _ & _ & _ & (_ & R2 & R3 & _)). auto. Qed.
+
+(* (6) OneShotEvent alone: without counter events, [fired] means Set was called *)
+Definition ose_trace (tr : list ev) : bool :=
+  forallb (fun e => match e with EAdd _ _ | ESub _ _ | EFAdd _ _ | EFSubA _ _ | EFSubP _ _ => false | _ => true end) tr.
+
+Lemma ose_fired tr : forall s s', run s tr = Some s' -> ose_trace tr = true -> fired s' = true ->
+  fired s = true \/ In EUserSet tr.
+Proof.
+  induction tr as [|e tr IH]; simpl; intros s s' H Ho Hf.
+  - inv_some H. auto.
+  - destruct (step s e) as [s1|] eqn:E; [|discriminate]. apply andb_true_iff in Ho. destruct Ho as [He Ho].
+    destruct (IH _ _ H Ho Hf) as [Hf1|Hin]; [|auto].
+    destruct e; try discriminate; auto.
+    1-2: simpl in E; inv_some E; auto.
+    1: { simpl in E. case_hyp E; inv_some E; auto. }
+    all: unfold step, ev_w, ev_f in E; cbv beta iota in E.
+    all: match type of E with
+         | context [nth_error (ws ?s) ?w] =>
+             destruct (nth_error (ws s) w) as [r0|] eqn:Hn; [|discriminate];
+             destruct (step_w_counters _ _ _ _ _ E) as (_ & _ & Ef & _); left; congruence
+         | context [nth_error (fs ?s) ?j] =>
+             destruct (nth_error (fs s) j) as [r0|] eqn:Hn; [|discriminate];
+             destruct (step_f_counters _ _ _ _ _ E eq_refl) as (_ & _ & Ef & _); left; congruence
+         end.
+Qed.
+
+Lemma run_app_intro tr1 : forall tr2 s s1 s2, run s tr1 = Some s1 -> run s1 tr2 = Some s2 ->
+  run s (tr1 ++ tr2) = Some s2.
+Proof.
+  induction tr1 as [|e tr1 IH]; simpl; intros tr2 s s1 s2 H1 H2.
+  - inv_some H1. auto.
+  - destruct (step s e) as [s'|]; [|discriminate]. eapply IH; eauto.
+Qed.
+
+Lemma rule_ok n tr s : run (init n) tr = Some s -> follows_rule n tr = true -> broken s = false.
+Proof. intros H Hr. rewrite (rule_is_not_broken _ _ _ H) in Hr. destruct (broken s); auto; discriminate. Qed.
+
+Lemma released_fired s w r : Inv s -> nth_error (ws s) w = Some r -> pc r = WDone ->
+  is_all (head s) = true /\ fired s = true.
+Proof.
+  intros I Hn Hp. pose proof (inv_wloc _ _ _ I Hn) as Hw. destruct I as (G & _).
+  assert (Ha : is_all (head s) = true).
+  { eapply wloc_all; eauto. unfold needs_all. rewrite Hp. apply orb_true_r. }
+  split; auto. unfold Gb in G. rewrite Ha in G. destruct (fired s); auto; bsimp; discriminate.
+Qed.
+
+Lemma late_waiter_passes s w r e s' :
+  is_all (head s) = true -> nth_error (ws s) w = Some r ->
+  (pc r = WTry \/ (exists x, pc r = WCas x) \/ (pc r = W0 /\ wk r <> KInline /\ wk r <> KSticky)) ->
+  (exists v, e = ETryLd w v) \/ (exists a, e = ETryCas w a) ->
+  step s e = Some s' -> exists r', nth_error (ws s') w = Some r' /\ pc r' = WPass.
+Proof.
+  intros Ha Hn Hp He H.
+  assert (Hs : step_w s w r e = Some s').
+  { destruct He as [[v ->]|[a ->]]; unfold step, ev_w, ev_f in H; cbv beta iota in H; rewrite Hn in H; exact H. }
+  destruct (step_w_reg _ _ _ _ _ Hs) as (r' & E & _ & Hpass). exists r'. split.
+  - rewrite E. eapply nth_upd_same; eauto.
+  - specialize (Hpass Ha Hp). destruct He as [[v ->]|[a ->]]; exact Hpass.
+Qed.
+
+Lemma woken_can_return s w r : nth_error (ws s) w = Some r -> pc r = WParked -> called r = true ->
+  (wk r = KBlock -> exists s', step s (ERet w) = Some s') /\
+  (wk r = KTimed -> exists s', step s (ETWake w true) = Some s').
+Proof.
+  intros Hn Hp Hc. split; intros Hk; unfold step, ev_w, ev_f; cbv beta iota; rewrite Hn; simpl;
+    rewrite Hp, Hk, Hc; simpl; eauto.
+Qed.
